@@ -73,6 +73,34 @@ MulByCofactorInv(d) ==
     /\ regs' = [regs EXCEPT ![d] = PMul(C, NModInv(NMod(C.h, C.r), C.r), regs[d])]
     /\ ev' = [op |-> "mul_by_cofactor_inv", d |-> d]
 
+\* ---- coordinate recovery (C11), sampling (C12), GLV (C04): results the code may choose among are RELATIONS
+\* both solutions u for the other coordinate of c, in lexicographic order; <<>> when there is none
+\*   short Weierstrass: u^2 = c^3 + a c + b          twisted Edwards: u^2 (a - d c^2) = 1 - c^2
+RecoverOK(c, ret) ==
+    IF C.kind = "sw"
+    THEN LET rhs == SWRhs(C, c) IN
+         IF ~TIsSquare(C.F, C.K, rhs) THEN ret = <<>>
+         ELSE Len(ret) = 2 /\ FMul(C, ret[1], ret[1]) = rhs /\ ret[2] = FNeg(C, ret[1]) /\ LexLe(C, ret[1], ret[2])
+    ELSE LET c2 == FMul(C, c, c)  num == FSub(C, FOne(C), c2)  den == FSub(C, C.a, FMul(C, C.d, c2)) IN
+         IF den = FZero(C) \/ ~TIsSquare(C.F, C.K, FMul(C, num, FInv(C, den))) THEN ret = <<>>
+         ELSE Len(ret) = 2 /\ FMul(C, FMul(C, ret[1], ret[1]), den) = num /\ ret[2] = FNeg(C, ret[1]) /\ LexLe(C, ret[1], ret[2])
+Recover(c, ret) == /\ FIsElem(C, c) /\ RecoverOK(c, ret) /\ UNCHANGED regs /\ ev' = [op |-> "recover", ret |-> "ok"]
+\* the point with coordinate c and the lexicographically greater / smaller other coordinate (P = <<>> for "none" is
+\* expressed by the caller through Recover); the register takes the returned point P
+FromCoord(d, c, greatest, P) ==
+    LET u == IF C.kind = "sw" THEN P[2] ELSE P[1]  nu == FNeg(C, u) IN
+    /\ P # Inf /\ (IF C.kind = "sw" THEN P[1] = c ELSE P[2] = c) /\ OnCurve(C, P)
+    /\ (IF greatest THEN LexLe(C, nu, u) ELSE LexLe(C, u, nu))
+    /\ regs' = [regs EXCEPT ![d] = P] /\ ev' = [op |-> "from_coord", d |-> d]
+\* random sampling only produces points of the prime-order subgroup
+RandPoint(d, P) == /\ OnCurve(C, P) /\ InSub(P) /\ regs' = [regs EXCEPT ![d] = P] /\ ev' = [op |-> "rand", d |-> d]
+\* GLV decomposition: signed halves with k = k1 + lambda k2 (mod r), both short
+SignedModR(pos, v) == LET m == NMod(v, C.r) IN IF pos \/ NIsZero(m) THEN m ELSE NSub(C.r, m)
+GlvDecomp(k, s1, k1, s2, k2) ==
+    /\ NMod(NAdd(SignedModR(s1, k1), NMod(NMul(C.lambda, SignedModR(s2, k2)), C.r)), C.r) = NMod(k, C.r)
+    /\ 2 * NBitLen(k1) <= NBitLen(C.r) + 6 /\ 2 * NBitLen(k2) <= NBitLen(C.r) + 6
+    /\ UNCHANGED regs /\ ev' = [op |-> "glv_decomp", ret |-> "ok"]
+
 \* multi-scalar multiplication over bases that are known multiples as[i] of the point in register s:
 \*   regs[d] := sum_i ks[i] * (as[i] * regs[s]) = (sum_i ks[i] as[i]) * regs[s]      (integers, no reduction needed)
 \* (full-size MSM: any number of terms costs the specification one scalar multiplication)
